@@ -171,7 +171,8 @@ def coq_prog(n):
     if op == 'batchmap': return f'(PMap (batch_map_fn {F.coq_f(a[0])}) {d})'
     if op == 'filter': return f'(PFilter {F.coq_q(a[0])} {b(a[1])} {d})'
     if op == 'catch': return f'(PCatch {coq_E(a[0])} {d})'
-    if op == 'prefetch': return f'(PPrefetch {nat(a[0])} {nat(a[1])} {coq_opt(a[2], coq_E)} {d})'
+    # prefetch treats an empty selection like every other falsy value of catch_filter_exception: catching is switched off
+    if op == 'prefetch': return f'(PPrefetch {nat(a[0])} {nat(a[1])} {coq_opt(a[2] or None, coq_E)} {d})'
     if op == 'get': return f'(PGet {coq_sl(a[0], n)} {d})'
     if op == 'shuffle':
         return f'(PGet (SlInts {coq_list([z(i) for i in n.note["perm"]])}) {d})'
@@ -204,7 +205,7 @@ def obs_iter(obj, wk, take=None):
         for x in it:
             vals.append(x)
             if len(vals) > LIMIT:
-                raise common.HarnessError('iteration does not end')
+                raise common.ImplMisbehaviour('iteration does not end')
     except common.HarnessError:
         raise
     except BaseException as e:  # noqa
@@ -375,7 +376,7 @@ def split_top(lst):
 # ------------------------------------------------------------------ generation
 KEYS = ['a', 'b', 'utt2', 'c', 'k10', 'k2', 'ab', 'ba', 'd', 'e_1', 'f', 'zy9', 'g', 'AB', 'h', 'utt10']
 USER_EXC = ['EFilter', '(EUser 0)', '(EUser 1)', '(EUser 2)', 'EValue', 'EIndex', 'EKey', '(EUserBase 0)', 'ERuntime', 'EType', 'EAttr', 'EAssert', 'ENotImpl', 'EZeroDiv']
-CATCH_SETS = [('EFilter',), ('(EUser 0)',), ('EFilter', '(EUser 2)'), ('EException',), ('ELookup',), ('EValue', 'EKey'), ('EType',), ('ERuntime', 'EAttr')]
+CATCH_SETS = [('EFilter',), ('(EUser 0)',), ('EFilter', '(EUser 2)'), ('EException',), ('ELookup',), ('EValue', 'EKey'), ('EType',), ('ERuntime', 'EAttr'), ()]
 
 
 class Gen:
